@@ -5,6 +5,9 @@ cd /verif
 ids=${@:-$(ls seeded)}
 for s in $ids; do
   prop=${s%%-*}
+  # the check named first in meta.json's detected_by (a change seeded for one property is sometimes caught by a neighbour's check)
+  first=$(python3 -c "import json,re,sys; m=re.search(r'C[0-9][0-9]', json.load(open('seeded/$s/meta.json')).get('detected_by','')); print(m.group(0) if m else '')")
+  [ -n "$first" ] && prop=$first
   git -C /repo apply /verif/seeded/$s/patch.diff || { echo "$s PATCH-DOES-NOT-APPLY"; continue; }
   t=$(date +%s)
   out=$(timeout 1800 ./check $prop --tier quick 2>&1); rc=$?
